@@ -2,6 +2,7 @@
   C15 — reports tell listeners about every change, at valid addresses (property theorems).
 -/
 import Gmars.Proofs.Abs
+import Gmars.Proofs.RecorderProofs
 
 namespace Gmars.Props.C15
 open Gmars
@@ -19,5 +20,30 @@ theorem cycle_reports_ignored (r : Recorder) (len : Int → Option Nat) (cy : In
     r.report len { typ := .cycleStart, cycle := cy } = .ok r ∧
     r.report len { typ := .cycleEnd, cycle := cy } = .ok r := by
   constructor <;> rfl
+
+/-- `recorder_last_writer` + `recorder_no_panic`: fed a stream of reports whose addresses are
+    inside the core (and whose spawn reports name existing warriors), the bundled state recorder
+    never panics and shows, for every address, the kind and owner of the LAST operation that
+    touched it (the last-writer fold `lastOp` of the stream). -/
+theorem recorder_last_writer (r : Recorder) (len : Int → Option Nat) (rps : List Report)
+    (h : r.Inv) (hpos : 0 < r.coresize.toNat)
+    (hall : ∀ rp ∈ rps, rp.addr < r.coresize ∧
+      (rp.typ = .warriorSpawn → ∃ n, len rp.wi = some n ∧ rp.addr.toNat + n ≤ 2 ^ 64)) :
+    ∃ r', rps.foldlM (fun r rp => Recorder.report r len rp) r = .ok r' ∧ r'.Inv ∧
+      r'.coresize = r.coresize ∧ r'.recordReads = r.recordReads ∧
+      ∀ a < r.coresize.toNat,
+        (r'.state.getD a .empty, r'.color.getD a (-1)) =
+          rps.foldl (lastOp r.coresize.toNat len r.recordReads)
+            (fun a => (r.state.getD a .empty, r.color.getD a (-1))) a :=
+  Recorder.reports_ok r len rps h hpos hall
+
+/-- `recorder_reset`: after a SimReset report every address shows (CoreEmpty, -1) -/
+theorem recorder_reset (r : Recorder) (len : Int → Option Nat) (rp : Report) (h : rp.typ = .simReset) :
+    ∃ r', r.report len rp = .ok r' ∧ ∀ a, r'.view a = (.empty, -1) := by
+  obtain ⟨r', e, _, _, _, v⟩ := Recorder.reset_empty r len rp h
+  exact ⟨r', e, v⟩
+
+/-- a fresh recorder satisfies the hypotheses of `recorder_last_writer` -/
+theorem recorder_new_inv (coresize : UInt64) : (Recorder.new coresize).Inv := Recorder.new_inv coresize
 
 end Gmars.Props.C15
